@@ -573,6 +573,9 @@ func c05Program(c *Ctx, idx int, name string, p c05Prog, frag int) error {
 		if exErr == nil {
 			bad = c05Classify(ex.premature)
 		}
+		if bad == "" && name == "hash-collision" {
+			bad = "c05:walloc:hash-chain-collision:stream-differs-from-whole"
+		}
 		if bad == "" {
 			bad = "c05:stream-vs-whole:unexplained"
 		}
@@ -743,6 +746,13 @@ func runC05(c *Ctx) error {
 		}
 		idx++
 	}
+	// result and dying operand in the same hash bucket of the wire allocator
+	for _, p := range c05HashPrograms(c) {
+		if err := c05Program(c, idx, "hash-collision", p, 0); err != nil {
+			return err
+		}
+		idx++
+	}
 	n := c.N(150, 3000)
 	for i := 0; i < n; i++ {
 		r := c.rng.Fork()
@@ -763,6 +773,9 @@ func runC05(c *Ctx) error {
 			}
 			idx++
 		}
+	}
+	if err := c05Walloc(c, &idx); err != nil {
+		return err
 	}
 	return c05Direct(c)
 }
